@@ -1,8 +1,8 @@
 //! C02: tensor view adaptors and their compositions, through a dynamic view interpreter.
 //! Every adaptor application calls the REAL constructor on a type-erased source
-//! (`Box<dyn TensorMut<i64, D>>`, which the crate itself implements TensorRef/TensorMut for) and
-//! re-boxes the result, so arbitrary-depth compositions run through the genuine generic code.
-//! Case language: see coq/theories/Run/RunC02.v.
+//! (`Box<dyn TensorMut<E, D>>` / `Box<dyn TensorRef<E, D>>`, which the crate itself implements
+//! TensorRef/TensorMut for) and re-boxes the result, so arbitrary-depth compositions run through
+//! the genuine generic code.  Case language: see coq/theories/Run/RunC02.v.
 //!   (2 1 term probes writes)   dynamic interpreter
 //!   (2 2 term probes writes)   static (non-erased) composition, for the term skeletons of c02/fixed.rs
 mod build;
@@ -71,18 +71,42 @@ fn execute(term: &Sx, probes: &[Vec<usize>], writes: &[(Vec<usize>, i64)], form:
         Ok(v) => v,
         Err(failure) => return failure,
     };
-    let d = view.dims();
+    let d = match &view {
+        AnyView::M(v) => v.dims(),
+        AnyView::R(v) => v.dims(),
+    };
     if probes.iter().any(|p| p.len() != d) || writes.iter().any(|w| w.0.len() != d) {
         return bad_case();
     }
     let observed = match view {
-        DynView::D0(v) => observe::<Dyn<0>, 0>(v, probes, writes, form),
-        DynView::D1(v) => observe::<Dyn<1>, 1>(v, probes, writes, form),
-        DynView::D2(v) => observe::<Dyn<2>, 2>(v, probes, writes, form),
-        DynView::D3(v) => observe::<Dyn<3>, 3>(v, probes, writes, form),
-        DynView::D4(v) => observe::<Dyn<4>, 4>(v, probes, writes, form),
-        DynView::D5(v) => observe::<Dyn<5>, 5>(v, probes, writes, form),
-        DynView::D6(v) => observe::<Dyn<6>, 6>(v, probes, writes, form),
+        AnyView::M(m) => {
+            use fam_mut::{Dyn, DynView};
+            match m {
+                DynView::D0(v) => observe::<Dyn<0>, 0>(v, probes, writes, form),
+                DynView::D1(v) => observe::<Dyn<1>, 1>(v, probes, writes, form),
+                DynView::D2(v) => observe::<Dyn<2>, 2>(v, probes, writes, form),
+                DynView::D3(v) => observe::<Dyn<3>, 3>(v, probes, writes, form),
+                DynView::D4(v) => observe::<Dyn<4>, 4>(v, probes, writes, form),
+                DynView::D5(v) => observe::<Dyn<5>, 5>(v, probes, writes, form),
+                DynView::D6(v) => observe::<Dyn<6>, 6>(v, probes, writes, form),
+            }
+        }
+        AnyView::R(r) => {
+            use fam_ref::{Dyn, DynView};
+            // nothing can be written through a shared reference: such cases carry no writes
+            if !writes.is_empty() {
+                return bad_case();
+            }
+            match r {
+                DynView::D0(v) => observe_shared::<Dyn<0>, 0>(v, probes),
+                DynView::D1(v) => observe_shared::<Dyn<1>, 1>(v, probes),
+                DynView::D2(v) => observe_shared::<Dyn<2>, 2>(v, probes),
+                DynView::D3(v) => observe_shared::<Dyn<3>, 3>(v, probes),
+                DynView::D4(v) => observe_shared::<Dyn<4>, 4>(v, probes),
+                DynView::D5(v) => observe_shared::<Dyn<5>, 5>(v, probes),
+                DynView::D6(v) => observe_shared::<Dyn<6>, 6>(v, probes),
+            }
+        }
     };
     // the view (and every &mut into the leaves) is gone now
     match observed {
@@ -107,74 +131,57 @@ fn value(v: Option<i64>) -> Sx {
     opt(v.map(z))
 }
 
-/// Ok([shape, layout, probes, iter, memorder, flags]) or Err(inconsistent code)
-fn observe<S: TensorMut<i64, D>, const D: usize>(
-    mut view: S,
-    probes: &[Vec<usize>],
-    writes: &[(Vec<usize>, i64)],
-    form: usize,
-) -> Result<Vec<Sx>, Sx> {
+/// Everything observable through a shared reference:
+/// Ok([shape, layout, probes, iter, memorder]) or Err(inconsistent code)
+fn observe_read<S: TensorRef<E, D>, const D: usize>(view: &S, probes: &[Vec<usize>]) -> Result<Vec<Sx>, Sx> {
     let shape = view.view_shape();
     let in_shape = |p: &[usize; D]| (0..D).all(|d| p[d] < shape[d].1);
     // ---- shape, through every route
     {
-        let tv = TensorView::from(&view);
-        if tv.shape() != shape || TensorRef::view_shape(&&view) != shape {
+        let tv = TensorView::from(view);
+        if tv.shape() != shape || TensorRef::view_shape(&view) != shape {
             return Err(inconsistent(201));
         }
-        if TensorAccess::from_source_order(&view).shape() != shape {
+        if TensorAccess::from_source_order(view).shape() != shape {
             return Err(inconsistent(202));
         }
     }
     // ---- layout
     let layout = match guarded(|| view.data_layout()) {
         Some(lay) => {
-            if TensorRef::data_layout(&&view) != lay {
+            if TensorRef::data_layout(&view) != lay {
                 return Err(inconsistent(203));
             }
             ok(layout_sx(&lay))
         }
         None => panicked(),
     };
-    // ---- probes: shared, mutable, unchecked must resolve to the same element
+    // ---- probes: every shared form must resolve to the same element
     let mut results = vec![];
     for p in probes {
         let p: [usize; D] = idx_arr(p);
-        let r: Option<i64> = view.get_reference(p).copied();
-        let addr: Option<*const i64> = view.get_reference(p).map(|x| x as *const i64);
-        if TensorRef::get_reference(&&view, p).copied() != r {
+        let r: Option<i64> = view.get_reference(p).map(|x| x.0);
+        let addr: Option<*const E> = view.get_reference(p).map(|x| x as *const E);
+        if TensorRef::get_reference(&view, p).map(|x| x as *const E) != addr {
             return Err(inconsistent(210));
         }
         {
-            let acc = TensorAccess::from_source_order(&view);
-            if acc.try_get_reference(p).copied() != r {
+            let acc = TensorAccess::from_source_order(view);
+            if acc.try_get_reference(p).map(|x| x as *const E) != addr {
                 return Err(inconsistent(211));
             }
-            if guarded(|| *acc.get_ref(p)) != r {
+            if guarded(|| acc.get_ref(p).0) != r {
                 return Err(inconsistent(212));
             }
-            if guarded(|| acc.get(p)) != r {
+            if guarded(|| acc.get(p).0) != r {
                 return Err(inconsistent(213));
-            }
-        }
-        if view.get_reference_mut(p).map(|x| x as *mut i64 as *const i64) != addr {
-            return Err(inconsistent(214));
-        }
-        {
-            let mut borrowed: &mut S = &mut view;
-            if TensorMut::get_reference_mut(&mut borrowed, p).map(|x| x as *mut i64 as *const i64) != addr {
-                return Err(inconsistent(215));
             }
         }
         // presence must be exactly "inside the reported shape" before an unchecked call is allowed
         if r.is_some() && in_shape(&p) {
-            let u = unsafe { view.get_reference_unchecked(p) } as *const i64;
+            let u = unsafe { view.get_reference_unchecked(p) } as *const E;
             if Some(u) != addr {
                 return Err(inconsistent(216));
-            }
-            let um = unsafe { view.get_reference_unchecked_mut(p) } as *mut i64 as *const i64;
-            if Some(um) != addr {
-                return Err(inconsistent(217));
             }
         }
         results.push(value(r));
@@ -182,12 +189,12 @@ fn observe<S: TensorMut<i64, D>, const D: usize>(
     // ---- iteration in view-shape order
     let elements: usize = shape.iter().map(|d| d.1).product();
     let iter_values: Vec<i64> = {
-        let tv = TensorView::from(&view);
-        let it: Vec<i64> = tv.iter().collect();
+        let tv = TensorView::from(view);
+        let it: Vec<E> = tv.iter().collect();
         if it.len() != elements {
             return Err(inconsistent(220));
         }
-        let refs: Vec<i64> = tv.iter_reference().copied().collect();
+        let refs: Vec<E> = tv.iter_reference().copied().collect();
         if refs != it {
             return Err(inconsistent(221));
         }
@@ -195,19 +202,22 @@ fn observe<S: TensorMut<i64, D>, const D: usize>(
         if mapped.shape() != shape || mapped.iter().collect::<Vec<_>>() != it {
             return Err(inconsistent(222));
         }
-        let with_index: Vec<([usize; D], i64)> = tv.iter().with_index().collect();
+        let with_index: Vec<([usize; D], E)> = tv.iter().with_index().collect();
         for (i, v) in &with_index {
             if view.get_reference(*i).copied() != Some(*v) {
                 return Err(inconsistent(223));
             }
         }
-        it
+        if it.iter().any(|x| x.1 != 0) {
+            return Err(inconsistent(224));
+        }
+        it.into_iter().map(|x| x.0).collect()
     };
     // ---- memory order walk for Linear layouts
     let memorder = match guarded(|| {
-        TensorAccess::from_memory_order(&view).map(|acc| {
-            let values: Vec<i64> = acc.iter().collect();
-            let addrs: Vec<*const i64> = acc.iter_reference().map(|x| x as *const i64).collect();
+        TensorAccess::from_memory_order(view).map(|acc| {
+            let values: Vec<i64> = acc.iter().map(|x| x.0).collect();
+            let addrs: Vec<*const E> = acc.iter_reference().map(|x| x as *const E).collect();
             (values, addrs)
         })
     }) {
@@ -220,13 +230,64 @@ fn observe<S: TensorMut<i64, D>, const D: usize>(
                 if (w[1] as usize) <= (w[0] as usize) {
                     return Err(inconsistent(230));
                 }
-                if (w[1] as usize) - (w[0] as usize) != std::mem::size_of::<i64>() {
+                if (w[1] as usize) - (w[0] as usize) != std::mem::size_of::<E>() {
                     return Err(inconsistent(231));
                 }
             }
             ok(l(vec![l(values.into_iter().map(|v| value(Some(v))).collect())]))
         }
     };
+    Ok(vec![
+        shape_sx(&shape),
+        layout,
+        l(results),
+        l(iter_values.into_iter().map(|v| value(Some(v))).collect()),
+        memorder,
+    ])
+}
+
+/// a view that is only reachable through shared references (below a `&S` source)
+fn observe_shared<S: TensorRef<E, D>, const D: usize>(view: S, probes: &[Vec<usize>]) -> Result<Vec<Sx>, Sx> {
+    let mut items = observe_read::<S, D>(&view, probes)?;
+    // the same again through one more shared reference must not change anything
+    if observe_read::<&S, D>(&&view, probes)? != items {
+        return Err(inconsistent(250));
+    }
+    drop(view);
+    items.push(nil());
+    Ok(items)
+}
+
+/// Ok([shape, layout, probes, iter, memorder, flags]) or Err(inconsistent code)
+pub(crate) fn observe<S: TensorMut<E, D>, const D: usize>(
+    mut view: S,
+    probes: &[Vec<usize>],
+    writes: &[(Vec<usize>, i64)],
+    form: usize,
+) -> Result<Vec<Sx>, Sx> {
+    let mut items = observe_read::<S, D>(&view, probes)?;
+    let shape = view.view_shape();
+    let in_shape = |p: &[usize; D]| (0..D).all(|d| p[d] < shape[d].1);
+    // ---- probes again: the mutable and unchecked forms must resolve to the same element
+    for p in probes {
+        let p: [usize; D] = idx_arr(p);
+        let addr: Option<*const E> = view.get_reference(p).map(|x| x as *const E);
+        if view.get_reference_mut(p).map(|x| x as *mut E as *const E) != addr {
+            return Err(inconsistent(214));
+        }
+        {
+            let mut borrowed: &mut S = &mut view;
+            if TensorMut::get_reference_mut(&mut borrowed, p).map(|x| x as *mut E as *const E) != addr {
+                return Err(inconsistent(215));
+            }
+        }
+        if addr.is_some() && in_shape(&p) {
+            let um = unsafe { view.get_reference_unchecked_mut(p) } as *mut E as *const E;
+            if Some(um) != addr {
+                return Err(inconsistent(217));
+            }
+        }
+    }
     // ---- writes
     let mut flags = vec![];
     for (idx, v) in writes {
@@ -234,13 +295,13 @@ fn observe<S: TensorMut<i64, D>, const D: usize>(
         let present = view.get_reference(p).is_some();
         let landed = if form == 1 && present && in_shape(&p) {
             unsafe {
-                *view.get_reference_unchecked_mut(p) = *v;
+                *view.get_reference_unchecked_mut(p) = (*v, 0);
             }
             true
         } else {
             match view.get_reference_mut(p) {
                 Some(r) => {
-                    *r = *v;
+                    *r = (*v, 0);
                     true
                 }
                 None => false,
@@ -249,18 +310,12 @@ fn observe<S: TensorMut<i64, D>, const D: usize>(
         if landed != present {
             return Err(inconsistent(240));
         }
-        if landed && view.get_reference(p) != Some(v) {
+        if landed && view.get_reference(p) != Some(&(*v, 0)) {
             return Err(inconsistent(241));
         }
         flags.push(boolean(landed));
     }
     drop(view);
-    Ok(vec![
-        shape_sx(&shape),
-        layout,
-        l(results),
-        l(iter_values.into_iter().map(|v| value(Some(v))).collect()),
-        memorder,
-        l(flags),
-    ])
+    items.push(l(flags));
+    Ok(items)
 }
